@@ -18,6 +18,7 @@ import (
 	"path/filepath"
 	"sync"
 	"testing"
+	"time"
 
 	"github.com/ipfs/go-cid"
 	"github.com/rpcpool/yellowstone-faithful/blocktimeindex"
@@ -38,7 +39,7 @@ func c01Cases(seed int64) []c01Case {
 	rng := rand.New(rand.NewSource(seed ^ 0xC01))
 	var cs []c01Case
 	epochs := []uint64{1, 7, 700, 0, 123}
-	nRandom := ev.Pick(20, 240)
+	nRandom := ev.Pick(40, 300)
 	for i := 0; i < nRandom; i++ {
 		o := cargen.Opts{
 			Epoch: epochs[rng.Intn(len(epochs))], Seed: seed*7919 + int64(i),
@@ -50,16 +51,18 @@ func c01Cases(seed int64) []c01Case {
 			TinyOneIn: []int{0, 6}[rng.Intn(2)], LegacyFnvOneIn: []int{0, 3}[rng.Intn(2)],
 			VoteOneIn: 4, FailOneIn: 5, V0OneIn: 4, SubsetEvery: []int{0, 7}[rng.Intn(2)],
 			TrailingJunkFrames: []int{0, 0, 2}[rng.Intn(3)],
+			SigEdgeOneIn:       []int{0, 3, 9}[rng.Intn(3)], BlocktimeEdgeOneIn: []int{0, 4}[rng.Intn(2)],
+			LastSlot: rng.Intn(4) == 0, HeightStart: []int64{0, 0, -1, 1 << 40}[rng.Intn(4)],
 		}
 		if i%5 == 0 {
 			o.MaxFrames = 60
 			o.MultiFrameOneIn = 2
 		}
-		cs = append(cs, c01Case{Name: fmt.Sprintf("rand-%d", i), Opts: o, RemoteSample: 1})
+		cs = append(cs, c01Case{Name: fmt.Sprintf("rand-%d", i), Opts: o, RemoteSample: ev.Pick(4, 2)})
 	}
 	// bucket boundaries (10 000 entries per bucket): blocks and transactions below/at/above
 	mk := func(name string, nslots, exactTx int) c01Case {
-		return c01Case{Name: name, RemoteSample: 37, Opts: cargen.Opts{Epoch: 9, Seed: seed + int64(nslots*3+exactTx), NSlots: nslots, MaxEntries: 1, MaxTx: 1, ExactTx: exactTx, RewardsOneIn: 50}}
+		return c01Case{Name: name, RemoteSample: 53, Opts: cargen.Opts{Epoch: 9, Seed: seed + int64(nslots*3+exactTx), NSlots: nslots, MaxEntries: 1, MaxTx: 1, ExactTx: exactTx, RewardsOneIn: 50}}
 	}
 	cs = append(cs, mk("blocks-10001", 10001, 500))
 	cs = append(cs, mk("tx-10000", 400, 10000))
@@ -75,11 +78,17 @@ func c01RunCase(rec *ev.Recorder, c c01Case, root string) {
 	dir := filepath.Join(root, c.Name)
 	defer os.RemoveAll(dir)
 	o := c.Opts
+	t0 := time.Now()
+	lap := func(what string) {
+		rec.Count("ms_"+what, int(time.Since(t0).Milliseconds()))
+		t0 = time.Now()
+	}
 	fx, indexErr, err := vfMakeEpoch(dir, o, false)
 	if err != nil {
 		rec.Inconclusive(fmt.Sprintf("%s: fixture: %v", c.Name, err))
 		return
 	}
+	lap("generate_and_index")
 	m := fx.Model
 	if len(m.Blocks) == 0 || len(m.BySig) == 0 {
 		// not in the property's domain (needs >= 1 block and >= 1 transaction): regenerate with one forced tx
@@ -175,7 +184,9 @@ func c01RunCase(rec *ev.Recorder, c c01Case, root string) {
 		}
 	}
 
+	lap("direct")
 	checkEpoch := func(mode string, ep *Epoch, sample int) {
+		defer lap(mode)
 		multi := NewMultiEpoch(&Options{EpochSearchConcurrency: 2})
 		multi.AddEpoch(m.Epoch, ep)
 		h := newMultiEpochHandler(multi, nil)
